@@ -15,6 +15,10 @@ package main
 //     over multi-file packages with colliding type identities (instantiations of one generic type, same-named
 //     local types, packages type-checked under one path): N goroutines over different files on one cold engine
 //     vs the lone run of each file on a fresh engine, and the warm re-run.
+//  5. "shared context" rounds (c08_ctx.go): the files of multi-file packages (one types.Info / FileSet / Package) linted by
+//     N goroutines that share ONE RunContext value (State nil) or copy it (State own / pooled / nil), mixed disciplines, free
+//     and forced ("nested": inside another call's Report callback) schedules; one goroutine-safe Report callback per package
+//     files every report under its file by position; vs the lone run of each file on a fresh engine with a context of its own.
 
 import (
 	"bytes"
@@ -72,6 +76,8 @@ type c08World struct {
 	// the others are variants type-checked under the path of one of them
 	tid    []c08PkgRef
 	tidExt *tidExt
+	// the "state" packages of the shared-context rounds (c08_ctx.go): several analysed files each, not importable
+	cs []c08PkgRef
 }
 
 const c08TidSinks = 8
@@ -649,7 +655,8 @@ func runC08(c *Ctx) error {
 	res.Rule = "static: Lean obligations on the regenerated lock-event and write-site tables; " +
 		"dynamic (race-built child, GOPATH mode, cold caches every round): (a) N goroutines x FindType name lists vs the Lean cache-protocol model " +
 		"and the executable statement spec08cache, (b) generated rules with GetType/GetInterface filters x generated packages: per-goroutine reports vs " +
-		"lone sequential baseline and warm re-run, race-detector log parsed; a case is non-trivial when at least two goroutines overlap on a name / file " +
+		"lone sequential baseline and warm re-run, (c) multi-file packages linted by goroutines sharing / copying one RunContext (State nil / own / pooled; free and " +
+		"nested schedules): reports filed by position per file vs the lone run of the file on a fresh engine with its own context; race-detector log parsed; a case is non-trivial when at least two goroutines overlap on a name / file " +
 		"and distinct by its inputs"
 
 	// 1. static half
@@ -709,6 +716,13 @@ func runC08(c *Ctx) error {
 	if err := c08GenTidWorld(hx.Rng(c.Seed, "c08-tid-world"), world, 3, 4); err != nil {
 		return err
 	}
+	nCtx := 60
+	if c.Thorough {
+		nCtx = 300
+	}
+	if err := c08GenCtxWorld(hx.Rng(c.Seed, "c08-ctx-world"), world, 6); err != nil {
+		return err
+	}
 	for pi, gmp := range procs {
 		spec := c08Spec{GoPath: world.gopath, GoMaxProcs: gmp}
 		rft := hx.Rng(c.Seed, fmt.Sprintf("c08-ft-%d", pi))
@@ -762,6 +776,14 @@ func runC08(c *Ctx) error {
 		for i := 0; i < nTid; i++ {
 			// names that make a fresh engine type-check fmt / io from source (slow under -race): thorough only
 			spec.Runs = append(spec.Runs, world.genTidRound(rtid, &deck, nRun+i, c.Thorough && i%10 == 9))
+		}
+		// shared-context rounds: the files of multi-file packages linted by goroutines that share / copy one RunContext
+		{
+			rctx := hx.Rng(c.Seed, fmt.Sprintf("c08-ctx-%d", pi))
+			var csDeck, tidDeck []int
+			for i := 0; i < nCtx; i++ {
+				spec.Ctx = append(spec.Ctx, world.genCtxRound(rctx, &csDeck, &tidDeck, i))
+			}
 		}
 		// the analysis adapter's once-only engine under contention (one round per child: the engine is process-wide)
 		{
@@ -824,7 +846,7 @@ func c08RunChild(c *Ctx, bin, dir, repoDir string, spec *c08Spec, idx int, suspe
 	cmd.Stdout, cmd.Stderr = &stdout, &stderr
 	t0 := time.Now()
 	runErr := cmd.Run()
-	res.Notes = append(res.Notes, fmt.Sprintf("child %d (GOMAXPROCS=%d): %d FT rounds, %d Run rounds, %.1fs", idx, spec.GoMaxProcs, len(spec.FT), len(spec.Runs), time.Since(t0).Seconds()))
+	res.Notes = append(res.Notes, fmt.Sprintf("child %d (GOMAXPROCS=%d): %d FT rounds, %d Run rounds, %.1fs", idx, spec.GoMaxProcs, len(spec.FT), len(spec.Runs)+len(spec.Ctx), time.Since(t0).Seconds()))
 	// races (also when the child died: the detector usually reports before the runtime gives up)
 	logs, _ := filepath.Glob(logPrefix + ".*")
 	nRaces := 0
@@ -1261,5 +1283,5 @@ func c08RunChild(c *Ctx, bin, dir, repoDir string, spec *c08Spec, idx int, suspe
 		}
 		res.Sample(map[string]interface{}{"op": rops[0], "answer": rans[0]})
 	}
-	return nil
+	return c08EvalCtx(c, spec, out.Ctx)
 }
